@@ -943,6 +943,11 @@ func (s *AbsfsNFS) Export(mountPath string, port int) error {
 
 	s.mountPath = mountPath
 
+	// Serving (again, after Unexport): accept requests
+	s.policyRWMu.Lock()
+	s.closed = false
+	s.policyRWMu.Unlock()
+
 	server, err := NewServer(ServerOptions{
 		Name:     "absfs",
 		UID:      0,
@@ -1039,6 +1044,10 @@ func (s *AbsfsNFS) Unexport() error {
 		s.exportServer.Stop()
 		s.exportServer = nil
 	}
+	// Wait for requests that are still executing (see Close)
+	s.policyRWMu.Lock()
+	defer s.policyRWMu.Unlock()
+	s.closed = true
 	// Cleanup all open file handles
 	s.fileMap.ReleaseAll()
 	// Clear caches
